@@ -179,7 +179,17 @@ func (f *Filter) FilterRequest(
 	item, ok := f.itemFromCache(ctx, cacheKey, host)
 	f.updateCacheLookupsMetrics(ok)
 	if ok {
-		return f.clonedResult(req.DNS, item.res), nil
+		if item.res == nil {
+			return nil, nil
+		}
+
+		// Only use the matched host from the cached result and build the
+		// result anew, since the messages and the request of the client that
+		// has populated the cache could differ from the current ones.
+		fam, _ := isFilterable(qt)
+		_, matched := item.res.MatchedRule()
+
+		return f.filteredResult(req, string(matched), fam)
 	}
 
 	fam, ok := isFilterable(qt)
